@@ -61,6 +61,8 @@ IndexAgrees ==
   /\ \A k \in tagged : meta[k].flag = "tag" /\ meta[k].dt = "str"
 Disjoint == DOMAIN fieldk \cap tagged = {}
 FieldTypes == \A k \in DOMAIN fieldk : fieldk[k] \in FieldKinds
+\* the index entry of EVERY tag says "str" - also of a tag that was given "no value" and is absent from the tags at the moment
+TagMetaStr == \A k \in DOMAIN meta : meta[k].flag = "tag" => meta[k].dt = "str"
 
 \* the action a builtin call stands for (o = operation name, vk = kind of the value passed, T = cast target)
 Step(o, k, k2, vk, T) ==
